@@ -77,6 +77,17 @@ class FnContract(Contract):
     def describe(self, inputs):
         return "%s(%s)" % (self.FUNC, ", ".join(concretise.py_repr(inputs[p]) for p in self.PARAMS))
 
+    # sample inputs for the bounded search: one value pool shared by ALL parameters (so the same text occurs in different
+    # argument positions across calls -- what a cache keyed by the text alone gets wrong), random combinations
+    SAMPLE_POOL = None
+
+    def sample_inputs(self, rng):
+        pool = self.SAMPLE_POOL
+        if not pool:
+            return
+        for _ in range(400):
+            yield dict((p, rng.choice(pool)) for p in self.PARAMS)
+
 
 def dict_get(d, k):
     """dual-mode lookup in a dict with concrete keys: SymDict (closed) or python dict; returns value or None if absent"""
